@@ -54,8 +54,8 @@ func main() {
 	cfg := drv.Parse()
 	r := drv.NewRand(cfg.Seed)
 	w := emit.NewWriter(cfg.Out, "C12_spec", 0, cfg.Only)
-	n := cfg.Count(240, 6000)
-	codecCases(w, r, cfg.Count(520, 16000))
+	n := cfg.Count(240, 4000)
+	codecCases(w, r, cfg.Count(520, 10000))
 
 	keyLens := []int{16, 24, 32, 16, 24, 32, 32, 32, 0, 15, 17, 31, 33, 64}
 	for i := 0; i < n; i++ {
